@@ -71,5 +71,26 @@ def run (t : Tier) : Emit Unit := do
       ops := ops ++ [.add es, .setPCR 0x100, .tables]
     ops := ops ++ [.remove 0x100, .tables, .setPCR 0x101, .tables]
     emit "C09" (DriverMux.muxCase { period := 40, ops := ops } true "mux-sections")
+  -- the same for every descriptor kind in turn (each length calculator decides section_length, hence where the CRC sits)
+  for k in [0:25] do
+    for _ in [0:(if t.quick then 3 else 20)] do
+      let mut ds : List Descriptor := []
+      let mut fuel := 20
+      while fuel > 0 do
+        fuel := fuel - 1
+        let d ← liftGen (genDescriptorOfKind k)
+        if (descriptorBody d).length ≤ 150 then
+          ds := descsP [d]
+          fuel := 0
+      let ops : List MuxOp := [.add { elementaryPID := 0x100, elementaryStreamDescriptors := ds, streamType := 0x06 }, .setPCR 0x100, .tables]
+      emit "C09" (DriverMux.muxCase { period := 40, ops := ops } true "mux-sections-per-descriptor-kind")
+
+  -- VBI data: every data service id x 0..3 lines (the per-service size depends on the id)
+  for id in [1, 2, 4, 5, 6, 7, 0, 3, 0x10] do
+    for lines in [0:4] do
+      let descs := (List.range lines).map fun i => ({ fieldParity := i % 2 = 0, lineOffset := (7 + i) % 32 } : DescriptorVBIDataDescriptor)
+      let d : Descriptor := { tag := descriptorTagVBIData, vbiData := some { services := [{ dataServiceID := id, descriptors := if isKnownVBIDataServiceID id then descs else [] }] } }
+      let ops : List MuxOp := [.add { elementaryPID := 0x100, elementaryStreamDescriptors := descsP [d], streamType := 0x06 }, .setPCR 0x100, .tables]
+      emit "C09" (DriverMux.muxCase { period := 40, ops := ops } true "mux-sections-vbi-data")
 
 end Astits.DriverC09
